@@ -69,7 +69,7 @@ CHECKS = {
         design="DESIGN.md §5 C14",
         technique="Coq proof (step machine over file-system primitives, induction over crash index / history / schedule) + primitive-trace correspondence"),
     "C16": dict(
-        text=("31 theorems over all argument texts (Props/C16.v): parse_subnetport/parse_ipport always yield a value or a usage error; "
+        text=("34 theorems over all argument texts (Props/C16.v): parse_subnetport/parse_ipport always yield a value or a usage error; "
               "parse(render spec) returns the resolver's address, the given or maximal width and the port range for IPv4-form and IPv6-form hosts; "
               "width range check; every numbers-and-dots IPv4 spelling resolves to the dotted quad of its value; every accepted IPv6 spelling (any 8 words, both printers, upper case, dotted tail) resolves to the canonical text, which reads back as the same words and is a fixed point (c16_canonical_v6_full, c16_canonical_v6, symbolic sweep over the 256 zero masks); [v6]:port and name:port (c16_hostport_port_full, c16_hostport_v6_port); listen and remote specifications "
               "decompose into user/password/host/port; command line overrides the environment. Tied to /repo by running the real parsers and "
@@ -88,7 +88,7 @@ CHECKS = {
         technique="Coq proof (stream-level splitter spec by induction on the chunk list, filter characterisation) + pipeline differential correspondence"),
 
     "C12": dict(
-        text=("13 theorems over all environment scripts (Props/C12.v): every request to install interception is preceded by the verified "
+        text=("16 theorems over all environment scripts (Props/C12.v): every request to install interception is preceded by the verified "
               "synchronisation string and the route message and happens at most once; readiness is reported only after the helper confirmed; "
               "every trace that entered the try block contains the close of the helper channel before exit, whatever exception class ended "
               "the loop (incl. failures inside the finally block); a dead ssh at any iteration ends the loop with Fatal; a wrong or missing "
@@ -146,12 +146,12 @@ CHECKS = {
         technique="Coq proof (bit arithmetic via div/mod, recognisers, totality of the line scanner) + differential correspondence with an ipaddress oracle"),
 
     "C18": dict(
-        text=("10 theorems (Props/C18.v) with zlib abstract (only the sync-flush law is assumed, as an explicit premise): for every list of module "
+        text=("14 theorems (Props/C18.v) with zlib abstract (only the sync-flush law is assumed, as an explicit premise): for every list of module "
               "sources of any size incl. empty (with the `if not data` fallback), every assembler text and EVERY segmentation of the upload the "
               "bootstrap one-liner reads exactly the assembler, the registered modules equal the packaged ones in order and byte for byte and the "
               "loop stops at the final blank name; the options module evaluates to the client's values; nothing but the two uploads is written "
-              "before the sync string is verified; the server's first stdout bytes are the sync string (regenerated constants). Tied to /repo by "
-              "running the REAL bootstrap produced by ssh.connect in fresh interpreters with an audit-hook prelude, fed in arbitrary segmentations."),
+              "before the sync string is verified; the server's first stdout bytes are the sync string (regenerated constants); the REMOTE COMMAND: for every string the POSIX-shell words of quote(s) are [s] (c18_quote_one_word), and the command handed to ssh runs the first of python3/python whose -V succeeds (or the --python path, as one word) with the bootstrap as one argument, under sh, cmd and powershell (c18_remote_command_posix/_python/_powershell). Tied to /repo by "
+              "running the REAL bootstrap produced by ssh.connect in fresh interpreters with an audit-hook prelude, fed in arbitrary segmentations; the argv of the real ssh.connect started on a stand-in ssh that hands the command to a real dash/bash login shell on hosts with python3+python / one of them / a failing python3 / none; the real get_module_source reading generated (incl. non-ASCII) sources through a redirected find_spec."),
         note="modelled not verified: zlib beyond the sync-flush law, compile/exec of module bodies, repr(str) outside printable ASCII without quote/backslash, text-mode newline translation in get_module_source, a blocking send being complete.",
         design="DESIGN.md §5 C18",
         technique="Coq proof (assembler loop on a buffered reader, induction over the module list and over read cuttings) + real-bootstrap correspondence"),
